@@ -7,8 +7,12 @@ Import ListNotations.
 Local Open Scope N_scope.
 
 Section LexPrint.
+(* [ud]: the digit class as peek sees it; [fdf c] = isNumber(c) for a character that was read *)
 Variable ud : N -> bool.
 Hypothesis Hud : ud_ok ud.
+Variable fdf : N -> bool.
+Hypothesis Hfdf : forall c, c < 128 -> fdf c = ascii_digit c.
+Notation sa c r := (scan_after' ud (fdf c) c r).
 
 (* ---- position-free lexer loop ---- *)
 Fixpoint lexk (fuel : nat) (inp : list N) : option (list tok) :=
@@ -18,7 +22,7 @@ Fixpoint lexk (fuel : nat) (inp : list N) : option (list tok) :=
     match inp with
     | [] => Some [eof_tok]
     | c :: r =>
-      let '(k, w, rest) := scan_after ud c r in
+      let '(k, w, rest) := sa c r in
       match lexk f rest with
       | Some ts => Some ((k, token_value k c w) :: ts)
       | None => None
@@ -26,21 +30,11 @@ Fixpoint lexk (fuel : nat) (inp : list N) : option (list tok) :=
     end
   end.
 
-Lemma lexk_lex_fuel : forall fuel inp p start,
-  option_map (map strip) (lex_fuel ud fuel inp p start) = lexk fuel inp.
-Proof.
-  induction fuel as [|f IH]; intros inp p start; [reflexivity|].
-  destruct inp as [|c r]; cbn [lex_fuel lexk]; [reflexivity|].
-  destruct (scan_after ud c r) as [[k w] rest].
-  rewrite <- (IH rest (advance_all (advance p c) w) (advance p c)).
-  destruct (lex_fuel ud f rest _ _); reflexivity.
-Qed.
-
 Lemma lexk_fuel_mono : forall f inp ts, lexk f inp = Some ts -> forall f', (f <= f')%nat -> lexk f' inp = Some ts.
 Proof.
   induction f as [|f IH]; intros inp ts H f' Hle; [discriminate|].
   destruct f' as [|f']; [lia|]. destruct inp as [|c r]; cbn [lexk] in *; [exact H|].
-  destruct (scan_after ud c r) as [[k w] rest].
+  destruct (sa c r) as [[k w] rest].
   destruct (lexk f rest) as [ts'|] eqn:E; [|discriminate].
   rewrite (IH _ _ E f'); [exact H|lia].
 Qed.
@@ -64,10 +58,10 @@ Qed.
 Lemma finish_number_kind : forall f m r, finish_number f m r <> KSpace.
 Proof. intros. unfold finish_number. destruct (_ && _); [discriminate|]. destruct r; discriminate. Qed.
 
-Lemma num_loop_kind : forall l first prev more rng k w rest,
-  num_loop ud l first prev more rng = (k, w, rest) -> k <> KSpace.
+Lemma num_loop_kind : forall l first fd prev more rng k w rest,
+  num_loop ud l first fd prev more rng = (k, w, rest) -> k <> KSpace.
 Proof.
-  fix IH 1. intros l first prev more rng k w rest H.
+  fix IH 1. intros l first fd prev more rng k w rest H.
   destruct l as [|c r]; cbn [num_loop] in H.
   - inversion H. apply finish_number_kind.
   - destruct ((first =? ch_0) && ((c =? ch_x) || (c =? ch_X))).
@@ -77,14 +71,14 @@ Proof.
     destruct (negb (is_digit ud c) && negb (c =? ch_dot)).
     + destruct (((c =? ch_e) || (c =? ch_E)) && negb (prev =? ch_minus) && negb (prev =? ch_plus) && negb (prev =? ch_dot)).
       { eapply scan_exp_kind; eauto. }
-      destruct ((c =? ch_minus) && is_digit ud first && negb rng).
+      destruct ((c =? ch_minus) && fd && negb rng).
       * destruct r as [|d r2]; [eapply Hfin; eauto|].
         destruct (is_digit ud d); [|eapply Hfin; eauto].
-        destruct (num_loop ud r2 first prev more true) as [[k' w'] rest'] eqn:E.
+        destruct (num_loop ud r2 first fd prev more true) as [[k' w'] rest'] eqn:E.
         inversion H; subst. eapply IH; eauto.
       * eapply Hfin; eauto.
     + destruct ((c =? ch_dot) && ((prev =? ch_minus) || (prev =? ch_plus))); [eapply Hfin; eauto|].
-      destruct (num_loop ud r first c true rng) as [[k' w'] rest'] eqn:E.
+      destruct (num_loop ud r first fd c true rng) as [[k' w'] rest'] eqn:E.
       inversion H; subst. eapply IH; eauto.
 Qed.
 
@@ -92,13 +86,13 @@ Lemma classify_text_kind : forall c w, classify_text ud c w <> KSpace.
 Proof. intros c w. unfold classify_text. destruct (_ || _); [discriminate|]. destruct (is_keyword_text _); discriminate. Qed.
 
 Lemma scan_after_nonspace : forall c r k w rest,
-  is_space c = false -> scan_after ud c r = (k, w, rest) -> k <> KSpace.
+  is_space c = false -> sa c r = (k, w, rest) -> k <> KSpace.
 Proof.
-  intros c r k w rest Hc H. unfold scan_after in H. rewrite Hc in H.
+  intros c r k w rest Hc H. unfold scan_after' in H. rewrite Hc in H.
   destruct (c =? 0); [inversion H; discriminate|].
   destruct (is_letter c).
   { destruct (span_alnum ud r). inversion H. apply classify_text_kind. }
-  destruct (is_digit ud c || (c =? ch_minus) || (c =? ch_plus)); [eapply num_loop_kind; eauto|].
+  destruct (fdf c || (c =? ch_minus) || (c =? ch_plus)); [eapply num_loop_kind; eauto|].
   destruct (c =? ch_quote).
   { destruct (str_loop r) as [[b w'] rest']. inversion H. destruct b; discriminate. }
   destruct (is_punct_char c); inversion H; discriminate.
@@ -114,11 +108,11 @@ Proof.
     + inversion H; subst. exact E.
 Qed.
 
-Lemma scan_after_space_rest : forall c r w rest, scan_after ud c r = (KSpace, w, rest) ->
+Lemma scan_after_space_rest : forall c r w rest, sa c r = (KSpace, w, rest) ->
   match rest with [] => True | c' :: _ => is_space c' = false end.
 Proof.
   intros c r w rest H. destruct (is_space c) eqn:Hc.
-  - unfold scan_after in H. destruct (c =? 0); [inversion H|]. rewrite Hc in H.
+  - unfold scan_after' in H. destruct (c =? 0); [inversion H|]. rewrite Hc in H.
     destruct (span_space r) as [w' rest'] eqn:E. inversion H; subst. eapply span_space_rest; eauto.
   - exfalso. eapply scan_after_nonspace; eauto.
 Qed.
@@ -159,7 +153,7 @@ Proof.
   induction f as [|f IH]; intros inp l H; [discriminate|].
   destruct inp as [|c r]; cbn [lexk] in H.
   - inversion H; subst. split; [reflexivity|intros _; reflexivity].
-  - destruct (scan_after ud c r) as [[k w] rest] eqn:E.
+  - destruct (sa c r) as [[k w] rest] eqn:E.
     destruct (lexk f rest) as [l'|] eqn:E2; [|discriminate]. inversion H; subst l.
     destruct (IH _ _ E2) as [IH1 IH2]. split.
     + cbn [pfilter_t drop_sp filter]. change (is_sp (k, token_value k c w)) with (tkind_eqb k KSpace).
@@ -175,33 +169,16 @@ Proof.
       destruct k; try reflexivity. congruence.
 Qed.
 
-(* the tokens the parser sees *)
-Definition tokens_of_text (text : list N) : option (list tok) :=
-  option_map (fun raw => map strip (pfilter raw)) (lex ud text).
-
 (* [Lx inp ts]: the non-space tokens of [inp] are [ts] *)
 Definition Lx (inp : list N) (ts : list tok) : Prop :=
   exists f l, lexk f inp = Some l /\ drop_sp l = ts.
-
-Lemma Lx_tokens_of_text : forall text ts, Lx text ts -> tokens_of_text text = Some ts.
-Proof.
-  intros text ts [f [l [Hl Hd]]]. unfold tokens_of_text, lex.
-  destruct (lex_fuel_enough ud (S (length text)) text (1, 0) (1, 0)) as [raw Hraw]; [lia|].
-  pose proof (lexk_lex_fuel (S (length text)) text (1, 0) (1, 0)) as HK. rewrite Hraw in HK.
-  cbn [option_map] in *. symmetry in HK.
-  (* both fuels agree at their maximum *)
-  pose proof (lexk_fuel_mono _ _ _ Hl (Nat.max f (S (length text))) (Nat.le_max_l _ _)) as H1.
-  pose proof (lexk_fuel_mono _ _ _ HK (Nat.max f (S (length text))) (Nat.le_max_r _ _)) as H2.
-  rewrite H1 in H2. inversion H2 as [H3]. rewrite Hraw. cbn [option_map]. rewrite pfilter_strip, <- H3.
-  destruct (lexk_pfilter _ _ _ Hl) as [Hp _]. rewrite Hp, Hd. reflexivity.
-Qed.
 
 Lemma Lx_nil : Lx [] [eof_tok].
 Proof. exists 1%nat, [eof_tok]. split; reflexivity. Qed.
 
 (* one scan step *)
 Lemma Lx_step : forall c r k w rest ts,
-  scan_after ud c r = (k, w, rest) -> Lx rest ts ->
+  sa c r = (k, w, rest) -> Lx rest ts ->
   Lx (c :: r) (if tkind_eqb k KSpace then ts else (k, token_value k c w) :: ts).
 Proof.
   intros c r k w rest ts E [f [l [Hl1 Hl2]]]. exists (S f). cbn [lexk]. rewrite E, Hl1.
@@ -288,11 +265,11 @@ Proof. intros c H. unfold is_letter, is_space in *. split; lia. Qed.
 Lemma scan_word : forall k c w R,
   wf_word k (c :: w) = true ->
   match R with [] => True | t :: _ => is_term t = true /\ (t =? ch_minus) = false end ->
-  scan_after ud c (w ++ R) = (k, w, R).
+  sa c (w ++ R) = (k, w, R).
 Proof.
   intros k c w R Hwf HR. cbn [wf_word] in Hwf.
   apply andb_true_iff in Hwf. destruct Hwf as [Hwf Hk]. apply andb_true_iff in Hwf. destruct Hwf as [Hc Hw].
-  destruct (letter_facts _ Hc) as [H0 Hs]. unfold scan_after. rewrite H0, Hs, Hc.
+  destruct (letter_facts _ Hc) as [H0 Hs]. unfold scan_after'. rewrite H0, Hs, Hc.
   rewrite span_alnum_exact; [|exact Hw|].
   - rewrite (classify_text_ud _ _ Hw). rewrite (tkind_eqb_eq _ _ Hk). reflexivity.
   - destruct R as [|t R']; [exact I|]. destruct HR as [Ht Hm]. apply term_not_alnum; assumption.
@@ -301,29 +278,32 @@ Qed.
 Ltac chlia := unfold ch_x, ch_X, ch_minus, ch_plus, ch_dot, ch_e, ch_E, ch_0, ch_M, ch_m, ch_quote, ch_sp, ch_tab, ch_nl,
   ascii_digit, is_space, is_letter in *; lia.
 
-Lemma scan_after_minus : forall r, scan_after ud ch_minus r = num_loop ud r ch_minus ch_minus false false.
+Lemma fdf_minus : fdf ch_minus = false. Proof. rewrite Hfdf by (unfold ch_minus; lia). reflexivity. Qed.
+Lemma fdf_plus : fdf ch_plus = false. Proof. rewrite Hfdf by (unfold ch_plus; lia). reflexivity. Qed.
+
+Lemma scan_after_minus : forall r, sa ch_minus r = num_loop ud r ch_minus false ch_minus false false.
 Proof.
-  intros r. unfold scan_after. change (ch_minus =? 0) with false. change (is_space ch_minus) with false.
+  intros r. rewrite fdf_minus. unfold scan_after'. change (ch_minus =? 0) with false. change (is_space ch_minus) with false.
   change (is_letter ch_minus) with false. change (ch_minus =? ch_minus) with true. cbv iota.
   rewrite orb_true_r. reflexivity.
 Qed.
 
-Lemma scan_after_plus : forall r, scan_after ud ch_plus r = num_loop ud r ch_plus ch_plus false false.
+Lemma scan_after_plus : forall r, sa ch_plus r = num_loop ud r ch_plus false ch_plus false false.
 Proof.
-  intros r. unfold scan_after. change (ch_plus =? 0) with false. change (is_space ch_plus) with false.
+  intros r. rewrite fdf_plus. unfold scan_after'. change (ch_plus =? 0) with false. change (is_space ch_plus) with false.
   change (is_letter ch_plus) with false. change (ch_plus =? ch_plus) with true. cbv iota.
   rewrite orb_true_r. reflexivity.
 Qed.
 
-Lemma scan_after_digit : forall c r, ascii_digit c = true -> scan_after ud c r = num_loop ud r c c false false.
+Lemma scan_after_digit : forall c r, ascii_digit c = true -> sa c r = num_loop ud r c true c false false.
 Proof.
-  intros c r H. unfold scan_after.
+  intros c r H. rewrite (Hfdf c (ascii_digit_small _ H)), H. unfold scan_after'.
   replace (c =? 0) with false by chlia. replace (is_space c) with false by chlia.
-  replace (is_letter c) with false by chlia. rewrite (ascii_digit_ud _ H). reflexivity.
+  replace (is_letter c) with false by chlia. reflexivity.
 Qed.
 
 (* ---- numbers ---- *)
-Definition first_ok (first : N) : Prop := first = ch_minus \/ ascii_digit first = true.
+Definition first_ok (first : N) (fd : bool) : Prop := (first = ch_minus /\ fd = false) \/ (ascii_digit first = true /\ fd = true).
 
 Lemma dod_facts : forall x, digit_or_dot x = true ->
   (x =? ch_x) = false /\ (x =? ch_X) = false /\ (x =? ch_minus) = false /\ (x =? ch_plus) = false /\
@@ -336,29 +316,29 @@ Proof.
     rewrite andb_false_r. reflexivity.
 Qed.
 
-Lemma num_loop_plain : forall body first prev more R,
+Lemma num_loop_plain : forall body first fd prev more R,
   forallb digit_or_dot body = true ->
   (prev =? ch_minus) = false -> (prev =? ch_plus) = false ->
-  first_ok first ->
+  first_ok first fd ->
   ok_after KNumber [] R = true ->
-  num_loop ud (body ++ R) first prev more false =
+  num_loop ud (body ++ R) first fd prev more false =
   (finish_number first (more || negb (match body with [] => true | _ => false end)) false, body, R).
 Proof.
-  induction body as [|x body IH]; intros first prev more R Hb Hp1 Hp2 Hf HR; cbn [app].
+  induction body as [|x body IH]; intros first fd prev more R Hb Hp1 Hp2 Hf HR; cbn [app].
   - rewrite orb_false_r. destruct R as [|t R']; [reflexivity|].
     cbn [ok_after] in HR. apply andb_true_iff in HR. destruct HR as [Ht HR].
     destruct (term_misc _ Ht) as [Hd [He [HE [Hx HX]]]]. pose proof (term_not_digit _ Ht) as Hnd.
     cbn [num_loop]. rewrite Hx, HX, Hnd, Hd, He, HE. cbn [orb andb negb]. rewrite andb_false_r. cbn [andb].
     destruct (t =? ch_minus) eqn:Hm; cbn [andb]; [|reflexivity].
-    destruct Hf as [Hf|Hf].
-    + subst first. rewrite (digit_ud_small ch_minus) by chlia. reflexivity.
-    + rewrite (ascii_digit_ud _ Hf). cbn [andb negb].
+    destruct Hf as [[Hf Hfd]|[Hf Hfd]]; subst fd.
+    + reflexivity.
+    + cbn [andb negb].
       cbn [negb orb] in HR. destruct R' as [|d r2]; [reflexivity|].
       cbn [hd_term] in HR. rewrite (term_not_digit _ HR). reflexivity.
   - cbn [forallb] in Hb. apply andb_true_iff in Hb. destruct Hb as [Hx Hb].
     destruct (dod_facts _ Hx) as [H1 [H2 [H3 [H4 [H5 H6]]]]].
     cbn [num_loop]. rewrite H1, H2, H5, Hp1, Hp2. cbn [orb]. rewrite !andb_false_r.
-    rewrite (IH first x true R Hb H3 H4 Hf HR). cbn [orb negb]. rewrite orb_true_r. reflexivity.
+    rewrite (IH first fd x true R Hb H3 H4 Hf HR). cbn [orb negb]. rewrite orb_true_r. reflexivity.
 Qed.
 
 Lemma finish_digit : forall c m, ascii_digit c = true -> finish_number c m false = KNumber.
@@ -374,7 +354,7 @@ Proof. intros c H. repeat split; chlia. Qed.
 
 Lemma scan_plain_number : forall c r R,
   plain_number (c :: r) = true -> ok_after KNumber [] R = true ->
-  scan_after ud c (r ++ R) = (KNumber, r, R).
+  sa c (r ++ R) = (KNumber, r, R).
 Proof.
   intros c r R Hwf HR. cbn [plain_number] in Hwf. destruct (c =? ch_minus) eqn:Hm.
   - apply N.eqb_eq in Hm. subst c. destruct r as [|d r']; [discriminate|].
@@ -383,11 +363,11 @@ Proof.
     change (ch_minus =? ch_0) with false. cbn [andb].
     rewrite (ascii_digit_ud _ Hd). cbn [negb andb].
     replace (d =? ch_dot) with false by chlia. cbn [andb].
-    rewrite (num_loop_plain r' ch_minus d true R Hb Hdm Hdp (or_introl eq_refl) HR). reflexivity.
+    rewrite (num_loop_plain r' ch_minus false d true R Hb Hdm Hdp (or_introl (conj eq_refl eq_refl)) HR). reflexivity.
   - apply andb_true_iff in Hwf. destruct Hwf as [Hc Hb].
     destruct (digit_facts _ Hc) as [H0 [Hs [Hl [Hcm Hcp]]]].
     rewrite (scan_after_digit _ _ Hc).
-    rewrite (num_loop_plain r c c false R Hb Hcm Hcp (or_intror Hc) HR).
+    rewrite (num_loop_plain r c true c false R Hb Hcm Hcp (or_intror (conj Hc eq_refl)) HR).
     rewrite (finish_digit _ _ Hc). reflexivity.
 Qed.
 
@@ -406,7 +386,7 @@ Qed.
 
 Lemma scan_hex_number : forall c r R,
   hex_number (c :: r) = true -> ok_after KNumber [] R = true ->
-  scan_after ud c (r ++ R) = (KNumber, r, R).
+  sa c (r ++ R) = (KNumber, r, R).
 Proof.
   intros c r R Hwf HR. cbn [hex_number] in Hwf. destruct r as [|b [|h hs]]; try discriminate.
   repeat (apply andb_true_iff in Hwf; destruct Hwf as [Hwf ?]).
@@ -423,31 +403,28 @@ Proof.
 Qed.
 
 (* ---- ranges ---- *)
-Lemma num_loop_digits : forall a first prev more rng R,
+Lemma num_loop_digits : forall a first fd prev more rng R,
   forallb ascii_digit a = true -> (prev =? ch_minus) = false -> (prev =? ch_plus) = false ->
-  (forall k w rest p', (p' =? ch_minus) = false -> (p' =? ch_plus) = false ->
-      num_loop ud R first p' (more || negb (match a with [] => true | _ => false end)) rng = (k, w, rest) ->
-      True) ->
   exists p', (p' =? ch_minus) = false /\ (p' =? ch_plus) = false /\
-    num_loop ud (a ++ R) first prev more rng =
-    (let '(k, w, rest) := num_loop ud R first p' (more || negb (match a with [] => true | _ => false end)) rng in (k, a ++ w, rest)).
+    num_loop ud (a ++ R) first fd prev more rng =
+    (let '(k, w, rest) := num_loop ud R first fd p' (more || negb (match a with [] => true | _ => false end)) rng in (k, a ++ w, rest)).
 Proof.
-  induction a as [|x a IH]; intros first prev more rng R Ha Hp1 Hp2 _.
+  induction a as [|x a IH]; intros first fd prev more rng R Ha Hp1 Hp2.
   - exists prev. split; [exact Hp1|]. split; [exact Hp2|]. cbn [app]. rewrite orb_false_r.
-    destruct (num_loop ud R first prev more rng) as [[k w] rest]. reflexivity.
+    destruct (num_loop ud R first fd prev more rng) as [[k w] rest]. reflexivity.
   - cbn [forallb] in Ha. apply andb_true_iff in Ha. destruct Ha as [Hx Ha].
     assert (Hdd : digit_or_dot x = true) by (unfold digit_or_dot; rewrite Hx; reflexivity).
     destruct (dod_facts _ Hdd) as [H1 [H2 [H3 [H4 [H5 H6]]]]].
-    destruct (IH first x true rng R Ha H3 H4 (fun _ _ _ _ _ _ _ => I)) as [p' [Hq1 [Hq2 Heq]]].
+    destruct (IH first fd x true rng R Ha H3 H4) as [p' [Hq1 [Hq2 Heq]]].
     exists p'. split; [exact Hq1|]. split; [exact Hq2|].
     cbn [app num_loop]. rewrite H1, H2, H5, Hp1, Hp2. cbn [orb]. rewrite !andb_false_r.
     rewrite Heq. cbn [orb negb]. rewrite orb_true_r.
-    destruct (num_loop ud R first p' true rng) as [[k w] rest]. reflexivity.
+    destruct (num_loop ud R first fd p' true rng) as [[k w] rest]. reflexivity.
 Qed.
 
 Lemma scan_range : forall c r R,
   range_number (c :: r) -> hd_term R = true ->
-  scan_after ud c (r ++ R) = (KRange, r, R).
+  sa c (r ++ R) = (KRange, r, R).
 Proof.
   intros c r R [a [b [Hv [Ha [Hb [Hda Hdb]]]]]] HR.
   destruct a as [|a0 a]; [congruence|]. cbn [app] in Hv. inversion Hv; subst c r.
@@ -455,21 +432,21 @@ Proof.
   cbn [forallb] in Hda, Hdb. apply andb_true_iff in Hda. destruct Hda as [Ha0 Hda].
   apply andb_true_iff in Hdb. destruct Hdb as [Hb0 Hdb].
   destruct (digit_facts _ Ha0) as [H0 [Hs [Hl [Hcm Hcp]]]].
-  unfold scan_after. rewrite H0, Hs, Hl, (ascii_digit_ud _ Ha0). cbn [orb].
+  rewrite (scan_after_digit _ _ Ha0).
   rewrite <- app_assoc. cbn [app].
-  destruct (num_loop_digits a a0 a0 false false (ch_minus :: b0 :: b ++ R) Hda Hcm Hcp (fun _ _ _ _ _ _ _ => I))
+  destruct (num_loop_digits a a0 true a0 false false (ch_minus :: b0 :: b ++ R) Hda Hcm Hcp)
     as [p' [Hq1 [Hq2 Heq]]].
   rewrite Heq. clear Heq. cbn [num_loop].
   replace ((a0 =? ch_0) && ((ch_minus =? ch_x) || (ch_minus =? ch_X))) with false by (rewrite andb_false_r; reflexivity).
   rewrite (digit_ud_small ch_minus) by chlia.
   replace (negb (ascii_digit ch_minus) && negb (ch_minus =? ch_dot)) with true by reflexivity.
   replace (((ch_minus =? ch_e) || (ch_minus =? ch_E))) with false by reflexivity. cbn [andb].
-  rewrite (ascii_digit_ud _ Ha0), (ascii_digit_ud _ Hb0). cbn [N.eqb ch_minus Pos.eqb andb negb].
-  destruct (num_loop_digits b a0 p' (false || negb (match a with [] => true | _ => false end)) true R Hdb Hq1 Hq2 (fun _ _ _ _ _ _ _ => I))
+  rewrite (ascii_digit_ud _ Hb0). cbn [N.eqb ch_minus Pos.eqb andb negb].
+  destruct (num_loop_digits b a0 true p' (false || negb (match a with [] => true | _ => false end)) true R Hdb Hq1 Hq2)
     as [p2 [Hr1 [Hr2 Heq2]]].
   rewrite Heq2. clear Heq2.
   (* at the delimiter, with isRange set *)
-  assert (Hend : forall m, num_loop ud R a0 p2 m true = (KRange, [], R)).
+  assert (Hend : forall m, num_loop ud R a0 true p2 m true = (KRange, [], R)).
   { intros m. destruct R as [|t R']; cbn [num_loop].
     - unfold finish_number. rewrite Hcm, Hcp. rewrite andb_false_r. reflexivity.
     - cbn [hd_term] in HR. destruct (term_misc _ HR) as [Hd [He [HE [Hx HX]]]].
@@ -489,34 +466,32 @@ Proof.
 Qed.
 
 Lemma scan_string : forall v R, expr_string v = true ->
-  scan_after ud ch_quote (v ++ ch_quote :: R) = (KString, v ++ [ch_quote], R).
+  sa ch_quote (v ++ ch_quote :: R) = (KString, v ++ [ch_quote], R).
 Proof.
-  intros v R H. unfold scan_after. change (ch_quote =? 0) with false. change (is_space ch_quote) with false.
+  intros v R H. rewrite (Hfdf ch_quote) by (unfold ch_quote; lia). unfold scan_after'. change (ch_quote =? 0) with false. change (is_space ch_quote) with false.
   change (is_letter ch_quote) with false. change (ch_quote =? ch_minus) with false. change (ch_quote =? ch_plus) with false.
   change (ch_quote =? ch_quote) with true. cbv iota.
-  rewrite (digit_ud_small ch_quote) by chlia. change (ascii_digit ch_quote) with false. cbn [orb].
+  change (ascii_digit ch_quote) with false. cbn [orb].
   rewrite (str_loop_exact v R H). reflexivity.
 Qed.
 
 (* ---- punctuation ---- *)
 Lemma scan_sign : forall c R, (c = ch_plus \/ c = ch_minus) -> hd_term R = true ->
-  scan_after ud c R = (KPunct, [], R).
+  sa c R = (KPunct, [], R).
 Proof.
   intros c R Hc HR.
-  assert (Hn : num_loop ud R c c false false = (KPunct, [], R)).
+  assert (Hn : num_loop ud R c false c false false = (KPunct, [], R)).
   { destruct R as [|t R']; cbn [num_loop].
     - destruct Hc; subst; reflexivity.
     - cbn [hd_term] in HR. destruct (term_misc _ HR) as [Hd [He [HE [Hx HX]]]].
-      rewrite Hx, HX, (term_not_digit _ HR), Hd. cbn [orb andb negb]. rewrite !andb_false_r.
-      assert (Hcd : is_digit ud c = false) by (destruct Hc; subst; rewrite digit_ud_small by chlia; reflexivity).
-      rewrite Hcd. rewrite andb_false_r. cbn [andb].
-      destruct ((t =? ch_e) || (t =? ch_E)); cbn [andb]; destruct Hc; subst; reflexivity. }
+      rewrite Hx, HX, (term_not_digit _ HR), Hd, He, HE. cbn [orb andb negb]. rewrite ?andb_false_r. cbn [andb].
+      destruct Hc; subst; reflexivity. }
   destruct Hc; subst; [rewrite scan_after_plus|rewrite scan_after_minus]; exact Hn.
 Qed.
 
 Lemma scan_punct : forall c R, is_punct_char c = true ->
   (if (c =? ch_plus) || (c =? ch_minus) then hd_term R else true) = true ->
-  scan_after ud c R = (KPunct, [], R).
+  sa c R = (KPunct, [], R).
 Proof.
   intros c R Hc HR.
   assert (Hcases : In c punct_chars).
@@ -524,7 +499,7 @@ Proof.
   unfold punct_chars in Hcases. cbn [In] in Hcases.
   repeat (destruct Hcases as [Hcases|Hcases]); try contradiction; subst c;
     try (apply scan_sign; [auto|exact HR]);
-    (unfold scan_after, is_digit; rewrite ud_small by lia; reflexivity).
+    (rewrite Hfdf by lia; reflexivity).
 Qed.
 
 (* ---- blanks ---- *)
@@ -538,8 +513,8 @@ Proof.
 Qed.
 
 Lemma scan_after_space : forall c r, is_space c = true ->
-  scan_after ud c r = (let '(w, rest) := span_space r in (KSpace, w, rest)).
-Proof. intros c r H. unfold scan_after. replace (c =? 0) with false by chlia. rewrite H. reflexivity. Qed.
+  sa c r = (let '(w, rest) := span_space r in (KSpace, w, rest)).
+Proof. intros c r H. unfold scan_after'. replace (c =? 0) with false by chlia. rewrite H. reflexivity. Qed.
 
 Lemma Lx_sp : forall s R ts, sp_ok s -> Lx R ts -> Lx (s ++ R) ts.
 Proof.
@@ -606,12 +581,58 @@ Proof.
   - destruct Hp as [Hwf [Hok Hp]]. cbn [app]. apply Lx_tok; [exact Hwf|exact Hok|]. apply IH; assumption.
 Qed.
 
+Lemma Lx_render : forall ps, pok ps [] -> Lx (render ps) (toks_of ps ++ [eof_tok]).
+Proof.
+  intros ps Hp. pose proof (Lx_pieces ps [] [eof_tok] Hp Lx_nil) as H. rewrite app_nil_r in H. exact H.
+Qed.
+
+End LexPrint.
+
+(* ---- back to the real lexer: [ud] = unicode.IsDigit outside ASCII ---- *)
+Section Real.
+Variable ud : N -> bool.
+Hypothesis Hud : ud_ok ud.
+
+Lemma peek_digits_ok : ud_ok (peek_digits ud).
+Proof. intros c Hc. unfold peek_digits. rewrite (Hud c Hc). reflexivity. Qed.
+
+Lemma fdf_ok : forall c, c < 128 -> is_digit ud c = ascii_digit c.
+Proof. intros c Hc. unfold is_digit. rewrite (Hud c Hc). apply orb_false_r. Qed.
+
+Notation lexk' := (lexk (peek_digits ud) (is_digit ud)).
+
+Lemma lexk_lex_fuel : forall fuel inp p start,
+  option_map (map strip) (lex_fuel ud fuel inp p start) = lexk' fuel inp.
+Proof.
+  induction fuel as [|f IH]; intros inp p start; [reflexivity|].
+  destruct inp as [|c r]; cbn [lex_fuel lexk]; [reflexivity|].
+  unfold scan_after. destruct (scan_after' (peek_digits ud) (is_digit ud c) c r) as [[k w] rest].
+  rewrite <- (IH rest (advance_all (advance p c) w) (advance p c)).
+  destruct (lex_fuel ud f rest _ _); reflexivity.
+Qed.
+
+(* the tokens the parser sees *)
+Definition tokens_of_text (text : list N) : option (list tok) :=
+  option_map (fun raw => map strip (pfilter raw)) (lex ud text).
+
+
+Lemma Lx_tokens_of_text : forall text ts, Lx (peek_digits ud) (is_digit ud) text ts -> tokens_of_text text = Some ts.
+Proof.
+  intros text ts [f [l [Hl Hd]]]. unfold tokens_of_text, lex.
+  destruct (lex_fuel_enough ud (S (length text)) text (1, 0) (1, 0)) as [raw Hraw]; [lia|].
+  pose proof (lexk_lex_fuel (S (length text)) text (1, 0) (1, 0)) as HK. rewrite Hraw in HK.
+  cbn [option_map] in *. symmetry in HK.
+  assert (H1 : lexk' (Nat.max f (S (length text))) text = Some l) by (eapply lexk_fuel_mono; [exact fdf_ok|exact Hl|apply Nat.le_max_l]).
+  assert (H2 : lexk' (Nat.max f (S (length text))) text = Some (map strip raw)) by (eapply lexk_fuel_mono; [exact fdf_ok|exact HK|apply Nat.le_max_r]).
+  rewrite H1 in H2. inversion H2 as [H3]. rewrite Hraw. cbn [option_map]. rewrite pfilter_strip, <- H3.
+  destruct (lexk_pfilter _ _ _ _ _ Hl) as [Hp _]. rewrite Hp, Hd. reflexivity.
+Qed.
+
 (* lex_print_tokens: the parser sees exactly the tokens the writer printed, then end of input *)
 Theorem lex_print_tokens : forall ps, pok ps [] ->
   tokens_of_text (render ps) = Some (toks_of ps ++ [eof_tok]).
 Proof.
-  intros ps Hp. apply Lx_tokens_of_text.
-  pose proof (Lx_pieces ps [] [eof_tok] Hp Lx_nil) as H. rewrite app_nil_r in H. exact H.
+  intros ps Hp. apply Lx_tokens_of_text. apply Lx_render; [exact peek_digits_ok|exact fdf_ok|exact Hp].
 Qed.
 
-End LexPrint.
+End Real.
